@@ -630,6 +630,10 @@ impl G1Projective {
         } else {
             scalars.len()
         };
+        if n == 0 {
+            // blst's Pippenger indexes the first point unconditionally.
+            return G1Projective::identity();
+        }
         let points =
             unsafe { std::slice::from_raw_parts(points.as_ptr() as *const blst_p1, points.len()) };
 
@@ -717,6 +721,10 @@ impl Curve for G1Projective {
     /// function will panic if `p.len() != q.len()`.
     fn batch_normalize(p: &[Self], q: &mut [Self::AffineRepr]) {
         assert_eq!(p.len(), q.len());
+        if p.is_empty() {
+            // blst's batch conversion indexes the first point unconditionally.
+            return;
+        }
         let points = unsafe { std::slice::from_raw_parts(p.as_ptr() as *const blst_p1, p.len()) };
 
         p1_affines::from(points)
